@@ -39,10 +39,10 @@ def gen_case(rng, P, mode=None, n=None, kind=None, frozen_bias=False):
             if j == k or frozen[k - 1] or frozen[j - 1]:
                 mig.append({'c0': 0.0, 'c1': 0.0, 'const': True})
             else:
-                m = par(0.05, 10, zero_ok=True)
+                m = par(0.05, 20, zero_ok=True)
                 m['c0'] = round(m['c0'], 3) + (0.001 * (k * 5 + j) if m['c0'] else 0.0)
                 mig.append(m)
-        pars.append({'nu': par(0.05, 20, logu=True), 'gamma': par(-10, 10, zero_ok=True), 'h': {'c0': rng.choice([0.5, 0.0, 1.0, rng.random()]), 'c1': 0.0},
+        pars.append({'nu': par(1e-2, 1e2, logu=True), 'gamma': par(-40, 40, zero_ok=True), 'h': {'c0': rng.choice([0.5, 0.0, 1.0, rng.random()]), 'c1': 0.0},
                      'beta': ({'c0': loguni(rng, 0.3, 3), 'c1': 0.0} if P == 1 and rng.random() < 0.5 else {'c0': 1.0, 'c1': 0.0}), 'mig': mig})
     theta0 = par(0.1, 5)
     case = {'P': P, 'n': n, 'grid_kind': rng.choice(['exponential', 'uniform', 'random']), 'grid_seed': rng.randrange(10 ** 6),
@@ -258,6 +258,22 @@ def add_driver_traces(ctx, res, rng, dims, prop, frozen_bias=False):
     for P in dims:
         for r in range(n_per if P <= 3 else max(2, n_per // 3)):
             cases.append(gen_case(rng, P, frozen_bias=frozen_bias))
+    if prop == 'C04' and not ctx.quick:
+        # every choice of frozen flags (2-4 populations; 5: every single and every complementary choice) and of nomut flags
+        import itertools as _it
+        for P in (2, 3, 4, 5):
+            pats = list(_it.product([False, True], repeat=P))
+            if P == 5:
+                pats = [pt for pt in pats if sum(pt) in (0, 1, 4, 5)]
+            for pt in pats:
+                for mode in ('const', 'linear'):
+                    c = gen_case(rng, P, mode=mode, kind='normal')
+                    c['frozen'] = list(pt)
+                    for k_, p_ in enumerate(c['par']):
+                        p_['mig'] = [({'c0': 0.0, 'c1': 0.0, 'const': True} if (pt[k_] or pt[j_] or j_ == k_) else m_) for j_, m_ in enumerate(p_['mig'])]
+                    if P == 2:
+                        c['nomut'] = [rng.random() < 0.5, rng.random() < 0.5]
+                    cases.append(c)
     if prop == 'C04':
         # a frozen population with migration must be rejected: every (P, frozen population, partner, direction)
         for P in (2, 3, 4, 5):
